@@ -406,7 +406,7 @@ func (s *Sim) fixedPointDefect(set *asv1.StatefulSet) string {
 			if !ok {
 				return fmt.Sprintf("revision: pod %s labelled with missing revision %q", p.Name, podRevision(p))
 			}
-			if got, ok := RevTemplate(rev); !ok || got != want {
+			if got, ok := RevTemplate(rev); !ok || !sameTemplate(got, want) {
 				return fmt.Sprintf("revision: pod %s at or above partition %d is not at the update revision (label %s, update %s)", p.Name, part, podRevision(p), upd)
 			}
 		}
